@@ -47,6 +47,13 @@ def enumerate_cases(tier):
             {"suffix": ".emf", "stem": "a", "hex": body.hex(), "format": "emf", "w": None, "h": None},
             {"suffix": ".png", "stem": "b", "hex": (png_head + body).hex(), "format": "png", "w": 300, "h": 200},
         ], "fig_width": [2.0], "fig_height": [1.5, 3.0, 9.0]}}
+    # the same path listed more than once (overview, detail, overview again as a thumbnail): sizes, alignment and pages are positional
+    a = {"suffix": ".png", "stem": "same", "hex": (png_head + b"overview").hex(), "format": "png", "w": 300, "h": 200}
+    b = {"suffix": ".jpg", "stem": "other", "hex": jpeg_with_metadata(640, 480, [20], tail=b"\xff\xd9").hex(), "format": "jpeg", "w": 640, "h": 480}
+    e = {"suffix": ".emf", "stem": "vec", "hex": bytes(range(60)).hex(), "format": "emf", "w": None, "h": None}
+    for files in ([a, a], [a, b, a], [a, a, a, b], [e, e], [b, e, b, e], [a, b, b]):
+        for fw, fh in (([6.0, 2.0, 3.0, 1.0], [4.5, 1.5, 2.0, 0.75]), ([6.0, 2.0], 3.0), (4.0, [1.0, 2.0, 3.0]), (5.0, 4.0)):
+            yield {"kind": "figure", "page": {"nrow": 40}, "figure": {"files": list(files), "fig_width": fw, "fig_height": fh}}
     yield from big_cases(tier)
 
 
